@@ -23,7 +23,12 @@
    yet offered e before it, the others after it ([serial] in the model).
 
    All statements quantify over EVERY schedule (list tid), every script of the producer, every list of
-   requests, every initial hub state, in the FIXED code (subscribersLock present). *)
+   requests, every initial hub state, in the FIXED code (subscribersLock present).
+
+   SCOPE (V2, finding W1-C08-2): the producer's Forkable step is Model/Hub.v [hub_live] (events only while
+   the hub is ready); the statements describe the real hub for a READY initial hub h0.  For any h0, with
+   the events of Model/HubAll.v [hub_live_all]: Spec/C08_All_Spec.v section 2 (Model/HubSchedG.v); for a
+   ready h0 the two models make the same runs (C08_sched_all_ready_same). *)
 From BV Require Import Base.Prelude Model.Block Model.ForkDB Model.Forkable Model.ForkableLookups
   Model.Burst Model.Hub Model.HubSubs Model.HubSched Spec.C08_Spec.
 Local Open Scope N_scope.
